@@ -17,6 +17,11 @@ import (
 	"strings"
 	"testing"
 
+	"github.com/vimeo/dials"
+	dcue "github.com/vimeo/dials/decoders/cue"
+	djson "github.com/vimeo/dials/decoders/json"
+	dtoml "github.com/vimeo/dials/decoders/toml"
+	dyaml "github.com/vimeo/dials/decoders/yaml"
 	"github.com/vimeo/dials/ez"
 	dflag "github.com/vimeo/dials/sources/flag"
 	"github.com/vimeo/dials/tagformat/caseconversion"
@@ -64,27 +69,111 @@ func ezShape() shape.Shape {
 	return shape.Shape{Fields: out}
 }
 
-// EzCase is a file format, a key casing and the supplied expanded leaves.
+// EzCase is a file format, the ez options that shape the decoder wrapping,
+// the ez entry point, and the supplied expanded leaves.
 type EzCase struct {
 	Decoder string `json:"decoder"` // json | yaml | toml | cue
-	// UpperKeys sets Params.FileFieldNameEncoder to UPPER_SNAKE_CASE, so every
-	// key of the file (primary and alias) is the upper-cased tag.
-	UpperKeys bool              `json:"upper_keys"`
-	Supply    map[string]uint64 `json:"supply"`
+	// UpperKeys is the older spelling of Encoder = "upper_snake".
+	UpperKeys bool `json:"upper_keys"`
+	// Encoder names Params.FileFieldNameEncoder: "" (nil), "upper_snake",
+	// "lower_snake" or "kebab".  Every dials tag of ezConfig is one lower-case
+	// word, so only upper_snake changes the tag keys; all three give untagged
+	// embedded structs a key built from the words of their type name.
+	Encoder string `json:"encoder,omitempty"`
+	// NoSetSlice is Params.DisableAutoSetToSlice (sets are then written as
+	// maps of empty maps).
+	NoSetSlice bool `json:"disable_auto_set_to_slice,omitempty"`
+	// FlattenAnonymous is Params.FlattenAnonymousFields (reaches the YAML
+	// decoder only).
+	FlattenAnonymous bool `json:"flatten_anonymous,omitempty"`
+	// Entry selects the ez entry point: "" / "ext" FileExtensionDecoderConfigEnvFlag,
+	// "named" YAML/JSON/TOML/CueConfigEnvFlag, "factory" ConfigFileEnvFlag,
+	// "factoryparams" ConfigFileEnvFlagDecoderFactoryParams.
+	Entry  string            `json:"entry,omitempty"`
+	Supply map[string]uint64 `json:"supply"`
+}
+
+func (c EzCase) encoder() string {
+	if c.Encoder == "" && c.UpperKeys {
+		return "upper_snake"
+	}
+	return c.Encoder
+}
+
+func (c EzCase) entry() string {
+	if c.Entry == "" {
+		return "ext"
+	}
+	return c.Entry
+}
+
+func ezModel(c EzCase) (*model, error) {
+	m, err := buildModel(ezShape(), sources[c.Decoder])
+	if err != nil {
+		return nil, err
+	}
+	m.keyEnc, m.flattenAnon = c.encoder(), c.FlattenAnonymous
+	return m, nil
 }
 
 func genEz(t *rapid.T) EzCase {
-	c := EzCase{Decoder: rapid.SampledFrom([]string{"json", "yaml", "toml", "cue"}).Draw(t, "decoder"), UpperKeys: rapid.Bool().Draw(t, "upper_keys")}
-	m, err := buildModel(ezShape(), sources[c.Decoder])
+	c := EzCase{
+		Decoder:          rapid.SampledFrom([]string{"json", "yaml", "toml", "cue"}).Draw(t, "decoder"),
+		Encoder:          rapid.SampledFrom([]string{"", "", "upper_snake", "lower_snake", "kebab"}).Draw(t, "encoder"),
+		NoSetSlice:       rapid.Bool().Draw(t, "disable_auto_set_to_slice"),
+		FlattenAnonymous: rapid.Bool().Draw(t, "flatten_anonymous"),
+		Entry:            rapid.SampledFrom([]string{"ext", "named", "factory", "factoryparams"}).Draw(t, "entry"),
+	}
+	m, err := ezModel(c)
 	if err != nil {
 		t.Fatalf("ez shape has no model: %v", err)
 	}
-	m.upperKeys = c.UpperKeys
 	g := &supplyGen{t: t, m: m, supply: map[string]uint64{}}
 	g.allowBoth = rapid.Bool().Draw(t, "allow_both")
 	g.fill(m.fields, "")
 	c.Supply = g.supply
 	return c
+}
+
+// ezDecoder builds the decoder the way ez.DecoderFromExtensionWithParams does
+// (used for the entry points that take a decoder factory).
+func ezDecoder(format string, flattenAnonymous bool) dials.Decoder {
+	switch format {
+	case "yaml":
+		return &dyaml.Decoder{FlattenAnonymous: flattenAnonymous}
+	case "json":
+		return &djson.Decoder{}
+	case "toml":
+		return &dtoml.Decoder{}
+	case "cue":
+		return &dcue.Decoder{}
+	}
+	return nil
+}
+
+func ezCall(ctx context.Context, c EzCase, cfg *ezConfig, params ez.Params[ezConfig]) (*dials.Dials[ezConfig], error) {
+	switch c.entry() {
+	case "ext":
+		return ez.FileExtensionDecoderConfigEnvFlag(ctx, cfg, params)
+	case "named":
+		switch c.Decoder {
+		case "yaml":
+			return ez.YAMLConfigEnvFlag(ctx, cfg, params)
+		case "json":
+			return ez.JSONConfigEnvFlag(ctx, cfg, params)
+		case "toml":
+			return ez.TOMLConfigEnvFlag(ctx, cfg, params)
+		case "cue":
+			return ez.CueConfigEnvFlag(ctx, cfg, params)
+		}
+	case "factory":
+		return ez.ConfigFileEnvFlag(ctx, cfg, func(string) dials.Decoder { return ezDecoder(c.Decoder, c.FlattenAnonymous) }, params)
+	case "factoryparams":
+		return ez.ConfigFileEnvFlagDecoderFactoryParams(ctx, cfg, func(_ string, p ez.Params[ezConfig]) dials.Decoder {
+			return ezDecoder(c.Decoder, p.FlattenAnonymousFields)
+		}, params)
+	}
+	return nil, fmt.Errorf("harness: unknown entry point %q", c.Entry)
 }
 
 func ezWant(path string, m *model, set map[string]uint64) ezConfig {
@@ -125,11 +214,20 @@ func runEz(c EzCase) vrt.Verdict {
 	if !ok || src.flatten {
 		return vrt.Discardf("unknown decoder")
 	}
-	m, err := buildModel(ezShape(), src)
+	switch c.encoder() {
+	case "", "upper_snake", "lower_snake", "kebab":
+	default:
+		return vrt.Discardf("unknown encoder")
+	}
+	switch c.entry() {
+	case "ext", "named", "factory", "factoryparams":
+	default:
+		return vrt.Discardf("unknown entry point")
+	}
+	m, err := ezModel(c)
 	if err != nil {
 		return vrt.Violationf("harness: %v", err)
 	}
-	m.upperKeys = c.UpperKeys
 	byKey := map[string]xleaf{}
 	for _, x := range m.expand() {
 		byKey[x.key] = x
@@ -142,13 +240,13 @@ func runEz(c EzCase) vrt.Verdict {
 			return vrt.Discardf("supply key is not an expanded leaf of the type")
 		}
 		path := append([]string{}, x.docPath...)
-		if c.UpperKeys {
+		if c.encoder() == "upper_snake" {
 			for i := range path {
 				path[i] = strings.ToUpper(path[i])
 			}
 		}
 		v := makeVal(x.f.typ, c.Supply[k])
-		root.put(path, docValue(v, c.Decoder == "toml"))
+		root.put(path, docValue(v, c.Decoder == "toml", c.NoSetSlice))
 		parts = append(parts, fmt.Sprintf("%s(%s)=%s", strings.Join(path, "/"), k, textOf(v)))
 	}
 	var doc string
@@ -179,14 +277,19 @@ func runEz(c EzCase) vrt.Verdict {
 	if err != nil {
 		return vrt.Violationf("flag source for ez: %v", err)
 	}
-	params := ez.Params[ezConfig]{FlagSource: fset}
-	if c.UpperKeys {
+	params := ez.Params[ezConfig]{FlagSource: fset, DisableAutoSetToSlice: c.NoSetSlice, FlattenAnonymousFields: c.FlattenAnonymous}
+	switch c.encoder() {
+	case "upper_snake":
 		params.FileFieldNameEncoder = caseconversion.EncodeUpperSnakeCase
+	case "lower_snake":
+		params.FileFieldNameEncoder = caseconversion.EncodeLowerSnakeCase
+	case "kebab":
+		params.FileFieldNameEncoder = caseconversion.EncodeKebabCase
 	}
 	ctx, cancel := context.WithCancel(context.Background())
 	defer cancel()
-	d, gerr := ez.FileExtensionDecoderConfigEnvFlag(ctx, &cfg, params)
-	desc := fmt.Sprintf("%s file %q; supplied: %s", c.Decoder, clip(doc, 500), strings.Join(parts, " "))
+	d, gerr := ezCall(ctx, c, &cfg, params)
+	desc := fmt.Sprintf("entry %s, encoder %q, DisableAutoSetToSlice %v, FlattenAnonymousFields %v, %s file %q; supplied: %s", c.entry(), c.encoder(), c.NoSetSlice, c.FlattenAnonymous, c.Decoder, clip(doc, 500), strings.Join(parts, " "))
 
 	if len(ev.both) > 0 {
 		var bn []string
@@ -214,7 +317,15 @@ func runEz(c EzCase) vrt.Verdict {
 			return vrt.KeyedViolationf("wrong-value", "ez: config differs from the model at %s (want vs got); %s", df, desc)
 		}
 	}
-	lab := map[string]bool{"decoder:" + c.Decoder: true, fmt.Sprintf("upper-keys:%v", c.UpperKeys): true}
+	enc := c.encoder()
+	if enc == "" {
+		enc = "nil"
+	}
+	lab := map[string]bool{"decoder:" + c.Decoder: true, "encoder:" + enc: true, "entry:" + c.entry(): true,
+		fmt.Sprintf("disable-auto-set-to-slice:%v", c.NoSetSlice): true, fmt.Sprintf("flatten-anonymous:%v", c.FlattenAnonymous): true}
+	if c.NoSetSlice && c.encoder() == "" {
+		lab["alias-mangler-alone-in-chain"] = true
+	}
 	if len(ev.both) > 0 {
 		lab["expect:error"] = true
 	} else {
@@ -246,11 +357,14 @@ func runEz(c EzCase) vrt.Verdict {
 func TestC14Ez(t *testing.T) {
 	vrt.Check(t, vrt.Prop[EzCase]{
 		ID: "C14", Name: "ez",
-		Rule: "fixed config type ezConfig (an embedded struct at the root and a pointer-embedded struct inside the aliased Outer struct, both with aliased leaves and no tag of their own, so their keys are promoted in JSON / Cue, the lower-cased type name in YAML, the type name in TOML, and the UPPER_SNAKE type name once FileFieldNameEncoder is set; aliased string leaf, aliased struct holding an aliased int and an aliased pointer struct with aliased []string / int64 leaves, aliased string set, aliased string map, an unaliased struct with aliased leaves); per aliased field neither / primary / alias / both as in the other C14 checks; format json|yaml|toml|cue and Params.FileFieldNameEncoder nil|UPPER_SNAKE_CASE drawn; the file is written by the harness and read through ez.FileExtensionDecoderConfigEnvFlag with an explicit, argument-less flag source; " +
+		Rule: "fixed config type ezConfig (an embedded struct at the root and a pointer-embedded struct inside the aliased Outer struct, both with aliased leaves and no tag of their own; aliased string leaf, aliased struct holding an aliased int and an aliased pointer struct with aliased []string / int64 leaves, aliased string set, aliased string map, an unaliased struct with aliased leaves); per aliased field neither / primary / alias / both as in the other C14 checks; " +
+			"drawn independently: format json|yaml|toml|cue; ez entry point FileExtensionDecoderConfigEnvFlag | YAML/JSON/TOML/CueConfigEnvFlag | ConfigFileEnvFlag (decoder factory) | ConfigFileEnvFlagDecoderFactoryParams; Params.FileFieldNameEncoder nil (2/5) | UPPER_SNAKE | lower_snake | kebab; Params.DisableAutoSetToSlice on/off (on: the set is written as a map of empty maps; on + nil encoder: the alias mangler is the only mangler of the chain); Params.FlattenAnonymousFields on/off (YAML decoder only); " +
+			"keys of the untagged embedded structs by construction: hoisted in YAML when FlattenAnonymousFields, else the encoder's join of the type-name words when an encoder is set, else promoted in JSON / Cue, lower-cased type name in YAML, type name in TOML; the file is written by the harness and read with an explicit, argument-less flag source; " +
 			"oracle: both => error whose innermost cause quotes the field, else View() equals defaults + supplied leaves; non-trivial = >=2 aliased field instances at different depths with different patterns; distinct = distinct case JSON",
 		Assumptions: []string{
 			"dials tags of ezConfig start with vfc, so neither the real environment nor the (empty) flag set supplies anything",
 			"the file is a temporary file removed after the case; file watching is off; the context is cancelled after the case",
+			"for the two factory entry points the harness's factory builds the decoder exactly as ez.DecoderFromExtensionWithParams does (yaml.Decoder{FlattenAnonymous: ...}, json, toml, cue)",
 		},
 		Gen: genEz, Run: runEz,
 	})
